@@ -287,7 +287,36 @@ func cmdCheck(record bool, args []string) int {
 			}
 		}
 	}
-	// lemmas
+	// lemmas (those applied inside function VCs are always proved in the same run)
+	// a lemma applied in a function is proved together with the lemmas declared before it in its package (its hypotheses)
+	for n := range w.usedLemmas {
+		var pkgOf string
+		for _, l := range w.lemmas {
+			if l.Name == n {
+				pkgOf = l.Pkg
+			}
+		}
+		for _, l := range w.lemmas {
+			if l.Pkg == pkgOf {
+				w.usedLemmas[l.Name] = true
+			}
+			if l.Name == n {
+				break
+			}
+		}
+	}
+	for n := range w.usedLemmas {
+		has := false
+		for _, pat := range pc.Lemmas {
+			if pat == n || (strings.HasSuffix(pat, "*") && strings.HasPrefix(n, strings.TrimSuffix(pat, "*"))) {
+				has = true
+			}
+		}
+		if !has {
+			pc.Lemmas = append(pc.Lemmas, n)
+		}
+	}
+	sort.Strings(pc.Lemmas)
 	lj, lerrs := lemmaJobs(w, pc, workDir)
 	translErrs = append(translErrs, lerrs...)
 	for _, j := range lj {
